@@ -100,7 +100,7 @@ PROPS = {
     ),
     "C02": dict(
         modules=[P + "C02"],
-        theorems=[P + "C02." + t for t in ("refines_atomic_lock", "fresh_object_inv", "conservation", "try_refused_only_when_full", "unlock_at_most_once", "unlock_exactly_once", "linearizable_real_time")]
+        theorems=[P + "C02." + t for t in ("refines_atomic_lock", "fresh_object_inv", "conservation", "try_refused_only_when_full", "unlock_at_most_once", "unlock_exactly_once", "linearizable_real_time", "seq_trylock_atomic", "seq_unlock_atomic", "seq_reachable_recInv")]
                  + ["Ldlm.Table.sim_obj", "Ldlm.Table.refines_obj", "Ldlm.Table.stepObj_inv", "Ldlm.Core.unlock_kills", "Ldlm.Core.Dead.forever"],
         streams=[CONC],
         level_text="SEQUENTIAL (M2, every reachable state and every continuation of the history - requests, expiries, session ends, collections, restarts): after a successful Unlock of (name, key) the pair is never held again and every further Unlock with it fails (unlock_exactly_once, by the invariant 'a dead key stays dead'). M1 has one action per critical section of lock.go/manager.go; every action emits the atomic-specification operations that take effect at it. Proved for EVERY schedule of any number of threads on a lock object: the emitted operations, in schedule order, are an execution of the atomic counting lock (forward simulation lifted to whole schedules) - each inside its call's interval, i.e. linearizability - under the side condition that a failing Unlock does not present a key still in the middle of being granted (a key no client has been told). Conservation (units = live keys + grants in progress <= size), 'refused only when full' and 'unlocked at most once' are proved with no hypothesis. REAL-TIME ORDER (M1t = the same critical sections run by threads with a program counter, invocation and return events): for EVERY schedule of any number of TryLock/Lock/Unlock calls, refused and cancelled ones included, every specification operation is attributed to a call that has been invoked and has not returned (for a hand-over: to the waiter at the head of the queue, whose call is pending), every call returns the result of its operation, and the operations in trace order are a run of the atomic counting lock (linearizable_real_time) - linearizability with explicit linearization points, real-time order included. Tied to the code by exploring all schedules up to a preemption bound (+ random) of 2-4-call programs on the instrumented real code, with a brute-force linearizability checker and capacity probes on every outcome, and by CALL-HISTORY VALIDATION of M1t: every distinct invocation/return history of the explored schedules is piped to the Lean driver (linthreads), which decides whether M1t has a schedule with these calls, this real-time order and these results (0 only through the critical sections, c only by giving up, r only by refusal).",
@@ -111,8 +111,8 @@ PROPS = {
     "C03": dict(
         modules=[P + "C03"],
         theorems=[P + "C03." + t for t in ("no_lost_wakeup", "release_serves_head", "arrivals_at_tail", "cancelled_never_served", "cancel_keeps_invariant",
-                                          "waiter_implies_full_seq", "wait_deadline", "wait_timeout_zero_is_none")]
-                 + ["Ldlm.Table.run_inv"],
+                                          "waiter_implies_full_seq", "wait_deadline", "wait_timeout_zero_is_none", "fifo_no_overtaking", "fifo_queue_order")]
+                 + ["Ldlm.Table.run_inv", "Ldlm.Table.no_overtaking", "Ldlm.Table.queue_order"],
         streams=[CONC, SEQ],
         level_text="For every schedule of any number of threads (M1): a non-empty queue means every unit is taken (no lost wake-up), a release hands the unit to the head of the queue and arrivals join at the tail (FIFO), a waiter that gave up is out of the queue and cannot be served later, and giving up preserves the invariant (does not delay the others). Timed part over M2: the wait deadline is exactly now + w*10^9 iff w > 0, 0/absent = none; the sequential no-lost-wake-up holds in every reachable state. Tied to the code by conc templates (release x waiter arrival x wait time-out x cancel, 1-2 waiters, coinciding instants) and seqdiff with exact virtual return times and a FIFO / early- / late-time-out monitor.",
         level_note="PARTIAL: 'promptly' is exact only in virtual time; real-time promptness and fair scheduling are the Go runtime's (trusted). Shutdown: the manager alone dead-locks with an un-cancellable blocked waiter (observation in DESIGN §2); through cmd/server the network layer cancels waiters first (C11). A theorem that a pending call completes at exactly its deadline under `advance` (wait_timeout_exact) is not yet proved; it is checked by the seq monitor.",
@@ -137,7 +137,7 @@ PROPS = {
                  + ["Ldlm.Table.gc_safe", "Ldlm.Table.run_inv", "Ldlm.Core.step_rel", "Ldlm.Core.advanceTo_rel", "Ldlm.Core.gc_sim_run"],
         status={P + "C13.gc_changes_failing_unlock_code": "refutation witness of strict invisibility (K11)",
                 P + "C13.gc_allows_recreation": "witness of the one effect the property allows (re-creation with another size)"},
-        streams=[CONC, SEQ],
+        streams=[CONC, SEQ, STACK],
         level_text="M1 (every schedule, GC steps anywhere, any idle-clock reading): a GC step that deletes a lock deletes one nobody holds, is acquiring, waits on or has fetched, with a free semaphore; it leaves every other lock untouched; the table invariant holds in every state of every schedule with GC interleaved - so the code's deleted-lock panic and checks are unreachable. M2: a GC pass keeps every record that has a key, changes nothing but the lock table, and a removed record was unheld and idle longer than min-idle (the only effect: re-creation, possibly with another size). SIMULATION (M2, every history, every GC interval and minimum idle time, ticks and explicit passes anywhere): the server and the same server whose collector deletes nothing run in lock step - related states (equal up to records with no key and no waiter) give the same answer, events and tie flag to every operation and stay related, or the request re-creates a collected lock with another size (without GC: size mismatch; with GC: granted), which is exactly the effect C13 allows; hence along every history in which the GC-less server never answers size mismatch the two give the same answers request by request (gc_invisible_history). Strict invisibility is false of the code in one respect (K11: a failing Unlock with a stale key names a different reason after collection) - kernel-checked witness, and the simulation compares error codes up to exactly that difference. Tied by conc templates (GC pass x Lock/TryLock/Unlock, min-idle 0) and a metamorphic seq run (same history with GC off, implementation vs implementation).",
         level_note="PARTIAL by K11. The reference of the simulation is the same model with a collector that deletes nothing (noGc: same ticks, same clock), the metamorphic stream compares the real server with GC on and off. D8 (GC racing an acquisition: double grant / panic) was found by this check and repaired (fix: 8781713). Trusted: Lean kernel, hand-written M1/M2, instrumented-build exploration.",
         technique="Lean 4 proof (GC enabling condition + invariant over all schedules; lock-step simulation GC / no GC over all histories) + controlled interleavings + metamorphic GC-on/GC-off replay",
@@ -287,7 +287,7 @@ PROPS = {
     "C14": dict(
         modules=[P + "C14"],
         theorems=[P + "C14." + t for t in ("all_conditions", "codes_roundtrip", "codes_roundtrip'", "codes_distinct", "nil_is_nil", "renew_rewrite_pinned", "error_not_true", "ok_has_no_error")],
-        streams=[STACK, SEQ, CLIENT],
+        streams=[STACK, SEQ, CLIENT, CONC],
         level_text="Over tables REGENERATED from the source on every run (both switch statements, the client's aliases, the proto enum): each of the six conditions maps to its own code, never Unknown, the code exists on the wire/JSON, and the Go client maps it back to an exported value aliasing the same server error - by kernel evaluation over the complete finite list. 'Error implies not locked/unlocked' and 'success implies no error' are proved for every M2 state and request. Which Go value the server returns per condition is tied by the stack stream (every condition x transport x RPC on the real binaries) and seqdiff.",
         level_note="D4 (failed Renew arrived as Unknown) was found by this check and repaired (fix: 11de5aa). Trusted: Lean kernel, facts extractor, grpc/grpc-gateway/protojson (exercised by the stack stream), hand-written M2.",
         technique="Lean 4 decide over regenerated tables + M2 case analysis + end-to-end code matrix on the real stack",
@@ -332,6 +332,89 @@ PROPS = {
                  "allocation is compared through the runtime's cumulative heap-allocation counter"],
     ),
 }
+
+# ---------------------------------------------------------------- source fingerprints
+# Which functions of /repo each property's models were written against. tools/facts emits one
+# `Facts.fp_<id>` (hash of the normalised signature + body) per function named in tools/facts/fp_names.txt;
+# lean/Ldlm/Pins/FP/Cxx.lean (written by tools/mkfp.py from a REVIEWED tree, not regenerated by the checks)
+# holds one `rfl` pin per function of the property. A change to a function breaks exactly the checks
+# of the properties listed here for it; the check then searches for a failing input.
+_L, _M, _T, _S = "lock/lock.go", "lock/manager.go", "timermap/timermap.go", "server/server.go"
+_SS, _ST, _I, _R = "server/session/session.go", "server/session/store/store.go", "server/ipc/ipc.go", "net/rest/rest.go"
+_G, _N, _SEC, _C, _MAIN = "net/grpc/grpc.go", "net/net.go", "net/security/security.go", "client/client.go", "cmd/server/main.go"
+def _f(file, *names):
+    return [(file,) + tuple(n.split(".")) if "." in n else (file, "", n) for n in names]
+FPG = dict(
+    lockobj=_f(_L, "NewLock", "Lock.Lock", "Lock.TryLock", "Lock.Unlock", "Lock.addKey", "Lock.Keys"),
+    mgr_get=_f(_M, "Manager.getLock", "Manager.getShard", "NewManagedLock", "NewManager"),
+    mgr_ops=_f(_M, "Manager.Lock", "Manager.TryLock", "Manager.Unlock"),
+    mgr_gc=_f(_M, "Manager.lockGc"),
+    mgr_shutdown=_f(_M, "Manager.shutdown"),
+    timer=_f(_T, "New", "TimerMap.Add", "TimerMap.Remove", "TimerMap.Reset", "TimerMap.shutdown"),
+    srv_lock=_f(_S, "LockServer.Lock", "LockServer.TryLock"),
+    srv_unlock=_f(_S, "LockServer.Unlock"),
+    srv_renew=_f(_S, "LockServer.Renew"),
+    srv_timeout=_f(_S, "LockServer.onTimeoutFunc"),
+    srv_key=_f(_S, "lockTimerKey"),
+    srv_new=_f(_S, "New"),
+    srv_sess=_f(_S, "LockServer.CreateSession", "LockServer.DestroySession", "LockServer.SessionId", "LockServer.SetShuttingDown"),
+    srv_locks=_f(_S, "LockServer.Locks"),
+    sess=_f(_SS, "NewManager", "sessionManager.Locks", "sessionManager.SetStore", "sessionManager.Load", "sessionManager.Save",
+            "sessionManager.RemoveLock", "sessionManager.AddLock", "sessionManager.CreateSession", "sessionManager.DestroySession"),
+    store=_f(_ST, "New", "store.Write", "store.Read", "store.Close", "lockSize", "marshalLock", "unmarshalLock", "marshalLocks", "unmarshalLocks"),
+    ipc=_f(_I, "IPC.Unlock", "IPC.ListLocks"),
+    ipc_srv=_f("server/ipc/server.go", "setUp", "Run", "socketPathExists"),
+    admin=_f("cmd/lock/cmd_list.go", "ListArgsAndFlags.Run") + _f("cmd/lock/cmd_unlock.go", "UnlockArgsAndFlags.Run") + _f("cmd/lock/main.go", "newClient", "main"),
+    rest=_f(_R, "restHandler.ServeHTTP", "restHandler.ValidatePassword", "restHandler.ValidateSession", "restHandler.DestroySession",
+            "restHandler.CreateSession", "restHandler.onTimeoutFunc", "Run", "NewRestServer"),
+    rest_end=_f(_R, "restHandler.ValidateSession", "restHandler.DestroySession", "restHandler.onTimeoutFunc"),
+    rest_auth=_f(_R, "restHandler.ServeHTTP", "restHandler.ValidatePassword"),
+    rest_run=_f(_R, "Run", "NewRestServer"),
+    grpc_svc=_f(_G, "Service.Lock", "Service.Unlock", "Service.TryLock", "Service.Renew", "lockErrToProtoBuffErr"),
+    grpc_conn=_f(_G, "Service.HandleConn", "Service.TagConn", "Service.TagRPC", "Service.HandleRPC", "NewService"),
+    grpc_run=_f(_G, "Run", "authPasswordInterceptor") + _f(_N, "Run"),
+    sec=_f(_SEC, "GetTLSConfig"),
+    client=_f(_C, "Lock.Unlock", "Lock.Renew", "New", "Client.Lock", "Client.TryLock", "Client.Unlock", "Client.Renew", "Client.Close",
+              "Client.maybeCreateRenewer", "Client.maybeRemoveRenewer", "newRenewer", "renewer.Start", "renewer.Stop", "rpcErrorToError", "rpcWithRetry"),
+    client_err=_f(_C, "Client.Lock", "Client.TryLock", "Client.Unlock", "Client.Renew", "rpcErrorToError", "rpcWithRetry"),
+    main=_f(_MAIN, "main"),
+)
+FPMAP = {
+    "C01": ["lockobj", "mgr_get", "mgr_ops", "mgr_gc", "srv_lock", "srv_new"],
+    "C02": ["lockobj", "mgr_get", "mgr_ops", "srv_lock", "srv_unlock"],
+    "C03": ["lockobj", "mgr_ops", "mgr_shutdown", "srv_lock"],
+    "C04": ["timer", "srv_lock", "srv_renew", "srv_timeout", "srv_unlock"],
+    "C05": ["timer", "srv_unlock", "srv_renew", "srv_timeout", "mgr_ops"],
+    "C06": ["srv_sess", "srv_lock", "srv_unlock", "srv_timeout", "sess", "grpc_conn", "rest_end", "lockobj"],
+    "C07": ["srv_lock", "srv_unlock", "srv_renew", "srv_key", "mgr_get", "mgr_ops", "sess", "timer"],
+    "C08": ["srv_locks", "srv_unlock", "srv_timeout", "srv_sess", "sess", "store", "srv_new"],
+    "C09": ["store", "sess", "srv_lock", "srv_unlock", "srv_timeout"],
+    "C10": ["srv_new", "srv_sess", "sess", "store", "srv_timeout", "srv_unlock", "srv_renew"],
+    "C11": ["main", "mgr_shutdown", "srv_sess", "srv_new", "ipc_srv", "grpc_run", "rest_run", "timer", "lockobj", "mgr_ops"],
+    "C12": ["srv_lock", "srv_renew", "mgr_get", "grpc_svc"],
+    "C13": ["mgr_gc", "mgr_get", "mgr_ops"],
+    "C14": ["grpc_svc", "srv_lock", "srv_unlock", "srv_renew", "client_err", "rest_run"],
+    "C15": ["rest", "grpc_svc", "grpc_conn"],
+    "C16": ["rest_auth", "grpc_run", "sec"],
+    "C17": ["store"],
+    "C18": ["ipc", "ipc_srv", "admin", "srv_locks", "srv_unlock", "srv_new", "sess"],
+    "C19": ["client"],
+    "C20": ["rest", "timer"],
+}
+import re as _re
+def fp_id(t):
+    return "fp_" + _re.sub(r"[^A-Za-z0-9]+", "_", t[0][:-3] + "_" + t[1] + "_" + t[2])
+def fp_funcs(prop):
+    seen, out = set(), []
+    for g in FPMAP.get(prop, []):
+        for t in FPG[g]:
+            if t not in seen:
+                seen.add(t); out.append(t)
+    return out
+for _p in PROPS:
+    if fp_funcs(_p):
+        PROPS[_p]["modules"] = PROPS[_p]["modules"] + ["Ldlm.Pins.FP." + _p]
+        PROPS[_p]["theorems"] = PROPS[_p]["theorems"] + ["Ldlm.Pins.FP.%s.%s" % (_p, fp_id(t)) for t in fp_funcs(_p)]
 
 NOT_CLAIMED = {}
 ENGINES = [
